@@ -12,7 +12,8 @@
 //	reentrant  setters called with logging / mutating / throwing valueOf arguments: step order of 15.9.5.27-41
 //	invalidroutes  every route into the invalid state (TimeClip overflow by each setter, setTime, NaN arguments,
 //	           constructor overflow, unparsable text, Date.prototype) followed by 1-2 setters, all getters after each step
-//	bigfields  field magnitudes 1e7..1e22, 2^31/2^32/2^53/2^63/2^64 neighbours, ... at every field position
+//	bigfields  field magnitudes 1e7..1e22, 2^31/2^32/2^53/2^63/2^64 neighbours, ... at every field position, cancelling pairs
+//	zones      time.Local set to fixed non-UTC zones: local/UTC twins of getters, setters, constructor vs Date.UTC
 //	history    E2 BFS over the time value under the 8 UTC setters + setTime
 package c12
 
@@ -49,6 +50,7 @@ func init() {
 			"reentrant: setter x arity 1..max+1 x {5,40,NaN}^arity x (no probe | position x 6 actions) x 3 receivers, every argument an object with a logging valueOf; " +
 			"non-trivial = a probe acts or the receiver is invalid. " +
 			"invalidroutes: route into the invalid state x follow-up setters (2- and 3-step histories), each step compared on return value, getTime, valueOf, 8 accessors, toISOString; non-trivial = the history ends in a valid date. " +
+			"zones: 5 fixed zones x (instants around local/UTC midnight at month/year ends, leap day, epoch, range ends: all get*/getUTC* accessors, getTimezoneOffset, toISOString; 15 setters x arity 0..2; 3^7 constructor/Date.UTC offsets). " +
 			"bigfields: one field (optionally a second, compensating one) replaced by a large finite value, all positions of Date.UTC / new Date / setUTC*; non-trivial = expected result is a number. " +
 			"history: BFS over time values from 5 initial values under all setter operations, dedup on the model time value; every transition is " +
 			"executed on a real Date object built by replaying the shortest path and compared on return value, getTime, valueOf and the 8 accessors; " +
@@ -63,11 +65,12 @@ func init() {
 			{Name: "reentrant", Run: runReentrant},
 			{Name: "invalidroutes", Run: runInvalidRoutes},
 			{Name: "bigfields", Run: runBigFields},
+			{Name: "zones", Run: runZones},
 			{Name: "history", Run: runHistory},
 		},
 		Assumptions: []string{
 			"ref/date is a faithful transcription of ES5.1 15.9.1.2-15.9.1.15, 15.9.3.1-2, 15.9.4.3, 15.9.5.27-41 (integer arithmetic, no use of Go's time package); it is self-checked (MakeDay/MakeTime invert the accessor formulas on every swept instant; cycle length 146097 days)",
-			"local time zone is UTC in the workers (TZ=UTC and time.Local = time.UTC), so the constructor's UTC(t) is the identity",
+			"local time zone is UTC in the workers (TZ=UTC and time.Local = time.UTC), so the constructor's UTC(t) is the identity; only the zones family sets time.Local to fixed-offset zones (LocalTZA constant, DaylightSavingTA = 0) and restores UTC afterwards; zones with daylight-saving transitions are outside the bound",
 			"arguments are primitives (numbers, undefined, null, one numeric string); ToNumber of these is taken from 9.3, not from otto; only the reentrant family passes objects, whose valueOf is harness code returning a number",
 			"reentrant: the inner setter calls made from valueOf use primitive arguments and are modelled by the same ref/date.Apply the history family validates",
 			"isoyears: a day that does not exist in its month (02-29 of a common year, 02-30, 02-31, 04-31) is an illegal element value in the sense of 15.9.4.2 and must give NaN",
@@ -80,15 +83,17 @@ func init() {
 	})
 
 	for name, flag := range map[string]byte{
-		"c12-no-timeclip":         'C',
-		"c12-year-test-no-toint":  'Y',
-		"c12-setfullyear-nan":     'S',
-		"c12-setter-shortcircuit": 'O',
-		"c12-go-int-overflow":     'G',
-		"c12-settime-stays-nan":   'T',
-		"c12-iso-year-go-layout":  'I',
-		"c12-iso-invalid-nothrow": 'R',
-		"c12-parse-extended-year": 'P',
+		"c12-no-timeclip":             'C',
+		"c12-year-test-no-toint":      'Y',
+		"c12-setfullyear-nan":         'S',
+		"c12-setter-shortcircuit":     'O',
+		"c12-go-int-overflow":         'G',
+		"c12-setfullyear-localzero":   'L',
+		"c12-setter-int64-saturation": 'A',
+		"c12-settime-stays-nan":       'T',
+		"c12-iso-year-go-layout":      'I',
+		"c12-iso-invalid-nothrow":     'R',
+		"c12-parse-extended-year":     'P',
 	} {
 		f := flag
 		engine.RegisterSignature(name, func(m *engine.Mismatch) bool { return flagSignature(m, f) })
@@ -288,6 +293,23 @@ const prelude = `
     if (n > 2) out += " / " + snap(d, ap(d, s3, k3, a3, b3, c3, d3));
     return out;
   };
+  // zones: local and UTC twins side by side
+  function lfields(d) {
+    return v(d.getFullYear()) + "," + v(d.getMonth()) + "," + v(d.getDate()) + "," + v(d.getDay()) + "," +
+      v(d.getHours()) + "," + v(d.getMinutes()) + "," + v(d.getSeconds()) + "," + v(d.getMilliseconds());
+  }
+  global.__zinst = function(x) {
+    var d = new Date(x), s;
+    try { s = d.toISOString(); s = typeof s === "string" ? "string:" + s : v(s); } catch (e) { s = "throw:" + (e && e.name); }
+    return v(d.getTime()) + "," + v(d.valueOf()) + "|" + fields(d) + "|" + lfields(d) + "|" + v(d.getTimezoneOffset()) + "|" + s;
+  };
+  var ZN = ["setUTCMilliseconds", "setUTCSeconds", "setUTCMinutes", "setUTCHours", "setUTCDate", "setUTCMonth", "setUTCFullYear", "setTime",
+            "setMilliseconds", "setSeconds", "setMinutes", "setHours", "setDate", "setMonth", "setFullYear"];
+  global.__zset = function(init, s, k, a, b) {
+    var d = new Date(init), m = ZN[s], r;
+    r = k === 0 ? d[m]() : k === 1 ? d[m](a) : d[m](a, b);
+    return v(r) + "," + v(d.getTime()) + "," + v(d.valueOf()) + "|" + fields(d) + "|" + lfields(d);
+  };
   // history: apply np prefix operations, then one operation; report pre-state | return value, getTime, valueOf | fields
   global.__hist = function(init, np, s1, k1, a1, b1, c1, d1, s2, k2, a2, b2, c2, d2, s3, k3, a3, b3, c3, d3) {
     var d = new Date(init), r, pre, p, q;
@@ -308,8 +330,8 @@ const prelude = `
 // state, so reuse cannot matter; the runtime is nevertheless replaced after
 // any error or Go panic.
 type machine struct {
-	vm                                             *otto.Otto
-	inst, parse, rt, reent, seq, fields, hist, und otto.Value
+	vm                                                          *otto.Otto
+	inst, parse, rt, reent, seq, zinst, zset, fields, hist, und otto.Value
 }
 
 func newMachine() (*machine, error) {
@@ -319,7 +341,7 @@ func newMachine() (*machine, error) {
 	}
 	m := &machine{vm: vm, und: otto.UndefinedValue()}
 	var err error
-	for name, dst := range map[string]*otto.Value{"__inst": &m.inst, "__parse": &m.parse, "__rt": &m.rt, "__reent": &m.reent, "__seq": &m.seq, "__fields": &m.fields, "__hist": &m.hist} {
+	for name, dst := range map[string]*otto.Value{"__inst": &m.inst, "__parse": &m.parse, "__rt": &m.rt, "__reent": &m.reent, "__seq": &m.seq, "__zinst": &m.zinst, "__zset": &m.zset, "__fields": &m.fields, "__hist": &m.hist} {
 		if *dst, err = vm.Get(name); err != nil || !dst.IsFunction() {
 			return nil, fmt.Errorf("prelude: %s missing", name)
 		}
